@@ -296,6 +296,8 @@ Section Plan.
     end.
 
   Definition P_nodup (p : list N) : Prop := NoDup p.
+  (* only token-owning nodes are named (a node outside the ring has no group) *)
+  Definition P_ring (p : list N) : Prop := forall n, In n p -> In n all_nodes.
   Definition P_filter (p : list N) : Prop := forall n, In n p -> enabled n = true.
   Definition P_locality (p : list N) : Prop :=
     forall d, pref_dc eff_pref = Some d -> pol_failover pol = false ->
